@@ -559,3 +559,97 @@ def tree_oracle(trial, obs, handed):
             k = next((a for a, (x, y) in enumerate(zip(got, ref[i])) if x != y), min(len(got), len(ref[i])))
             v.append(('net-tree-composition', f"node {i}: set #{k} handed to process() is {got[k] if k < len(got) else None}, the composition gives {ref[i][k] if k < len(ref[i]) else None}"))
     return v
+
+# ---------------------------------------------------------------------------------------------- tee-rejoin: source -> b branches -> join (C03 stage C, rejoins)
+
+def gen_rejoin_trial(rng):
+    """source 0, branches 1..b (each subscribed to the source only, each publishing its OWN topic names, never returning None), join b+1 subscribed
+    to all branches, optional sink; no restarts (hypotheses of C03_net_rejoin_composition)"""
+    b = rng.randint(2, 3)
+    ups, behs = [[]], []
+    sb = {'kind': 'src', 'topics': rng.choice([['main'], ['main'], ['main', '_h'], ['main', 'aux']])}
+    if rng.random() < 0.4: sb['skip'] = sorted(rng.sample(range(8), rng.randint(1, 2)))       # a skip UPSTREAM of the split is allowed
+    if rng.random() < 0.2: sb['defer'] = True
+    if rng.random() < 0.15: sb['dnone'] = [rng.randrange(6)]
+    behs.append(sb)
+    for k in range(1, b + 1):
+        ups.append([0])
+        r = rng.random()
+        bb = {'kind': 'rename', 'frm': 'main', 'to': f'b{k}'} if r < 0.6 else {'kind': 'sum', 'name': f's{k}'}
+        if bb['kind'] == 'rename' and 'aux' in sb['topics']: bb = {'kind': 'sum', 'name': f's{k}'}     # 'aux' through two branches would be a duplicate topic at the join
+        if rng.random() < 0.25: bb['empty'] = sorted(rng.sample(range(8), rng.randint(1, 2)))           # {} is allowed: an empty contribution
+        if rng.random() < 0.25: bb['defer'] = True
+        behs.append(bb)
+    ups.append(list(range(1, b + 1)))
+    jb = rng.choice([{'kind': 'pass'}, {'kind': 'sum', 'name': 'main'}, {'kind': 'pass', 'skip': [rng.randrange(5)]}])
+    behs.append(jb)
+    if rng.random() < 0.6:
+        ups.append([b + 1]); behs.append({'kind': 'pass'})
+    topo = {'family': 'teerejoin', 'ups': ups, 'behs': behs}
+    L = len(ups)
+    style = rng.choice(['flow', 'flow', 'loose', 'chaos', 'late'])
+    late = rng.randrange(1, b + 1)
+    evs, t = [], 1000
+    for r_ in range(rng.randint(10, 24)):
+        t += rng.choice([100, 100, 100, 50, 1, 0, 6000])
+        order = list(range(L)); rng.shuffle(order)
+        if style == 'late' and r_ < 6: order = [i for i in order if i != late]
+        for i in order:
+            if style == 'chaos':
+                for _ in range(rng.randint(0, 3)): evs.append({'k': 'recv', 'i': i} if rng.random() < 0.5 else {'k': 'send', 'i': i, 't': t})
+            else:
+                p = 0.95 if style != 'loose' else 0.7
+                if rng.random() < p: evs.append({'k': 'recv', 'i': i})
+                if rng.random() < 0.1: evs.append({'k': 'recv', 'i': i})
+                if rng.random() < p: evs.append({'k': 'send', 'i': i, 't': t})
+    return {'topo': topo, 'evs': evs}
+
+
+def rejoin_reference(topo, nsrc):
+    """sets handed to the join: for the k-th surviving source frame, the union over the branches (in the join's source order) of what the branch makes of it"""
+    from openfilter.filter_runtime.frame import Frame
+    procs = [mk_proc(b, i) for i, b in enumerate(topo['behs'])]
+    def norm(r):
+        if callable(r): r = r()
+        if r is None: return None
+        if isinstance(r, Frame): return {'main': r}
+        return r
+    J = next(i for i, u in enumerate(topo['ups']) if len(u) > 1)
+    outs, k = [], 0
+    for n in range(nsrc):
+        r = norm(procs[0]({}, n, 0))
+        if r is None: continue
+        outs.append((k, r)); k += 1
+    ref = []
+    for n, (k, d) in enumerate(outs):
+        vis = {t: f for t, f in d.items() if not t.startswith('_')}
+        cur = []
+        for br in topo['ups'][J]:
+            r = norm(procs[br](vis, n, 0))
+            if r is None: cur = None; break          # outside the hypotheses (a branch skips): no handed set can match
+            cur += [[t, f.data['c']] for t, f in r.items() if not t.startswith('_')]
+        ref.append([k, cur])
+    return J, ref
+
+
+def rejoin_oracle(trial, obs, handed):
+    nsrc = sum(1 for idx, i, ident, fr in handed if i == 0)
+    J, ref = rejoin_reference(trial['topo'], nsrc)
+    got = [[ident, [[t, c] for t, c, _ in fr]] for idx, j, ident, fr in handed if j == J]
+    if got != ref[:len(got)]:
+        k = next((a for a, (x, y) in enumerate(zip(got, ref)) if x != y), min(len(got), len(ref)))
+        return [('net-rejoin-composition', f"join {J}: set #{k} handed to process() is {got[k] if k < len(got) else None}, every branch applied to source frame #{k} gives "
+                 f"{ref[k] if k < len(ref) else None} (handed so far {len(got)})")]
+    return []
+
+
+def rejoin_skip_witness():
+    """negative control: branch 1 returns None for its second set - the join is then handed the common ids 0, 2, 3, ... and the oracle must fire"""
+    topo = {'family': 'teerejoin', 'ups': [[], [0], [0], [1, 2]],
+            'behs': [{'kind': 'src', 'topics': ['main']}, {'kind': 'rename', 'frm': 'main', 'to': 'b1', 'skip': [1]}, {'kind': 'rename', 'frm': 'main', 'to': 'b2'}, {'kind': 'pass'}]}
+    evs, t = [], 1000
+    for _ in range(16):
+        t += 100
+        for i in range(4): evs += [{'k': 'recv', 'i': i}, {'k': 'send', 'i': i, 't': t}]
+    return {'topo': topo, 'evs': evs}
+
